@@ -142,6 +142,8 @@ def generate(ctx):
             b"_heuristic(a,sign, +5 ,3)", b"_heuristic(f(a,b),true,1,-1)", b"_heuristic(\"x,y\",false,1)", b"_heuristic(\"x", b"_heuristic(a,sign,1)x", b"_heuristic(a,signal,1)",
             b"_edge(1,2)", b"_edge(a,b)x", b"_edge(f(1,2),g)", b"_edge(a", b"_edge(,b)", b"_edge(_heuristic(a,sign,1)\"", b"_acyc_1_2_3", b"_acyc_1_ 2_-3", b"_acyc_1_2_", b"_acyc_x_1_2",
             b"_acyc_1_2_3rest", b"a", b"b", b"", b"_atom(3)", b"_edge(1,2", b"_heuristic(b,factor,99999999999)"]
+    for _ in range(n // 3):
+        out.append({"raw": progs.fuzz_symtab(ctx.rng, ctx.rng.random() < 0.3).hex(), "opts": "".join(ctx.rng.choice("01") for _ in range(4))})
     for _ in range(n // 2):
         k = ctx.rng.randint(1, 6)
         body = b"".join(b"%d %s\n" % (ctx.rng.randint(1, 6), ctx.rng.choice(pool)) for _ in range(k))
